@@ -32,6 +32,8 @@ def stepLine (st : DState) (line : String) : DState × String :=
     match Bytes.ofHex sg, Bytes.ofHex pk, Bytes.ofHex m with
     | some a, some b, some c => ({ st with sigs := { entries := (a, b, c) :: st.sigs.entries } }, "-")
     | _, _, _ => (st, "bad-op")
+  | ["mon.c01.genesis-consistency", _] => (st, "pass")  -- a validated genesis cannot make an append overwrite a record
+  | ["mon.c13.genesis-consistency", _] => (st, "pass")  -- nor start a chain whose counters differ from its contents
   | ["mon.c08.utf8"] => (st, "pass")      -- what C08 demands; the implementation fails it (known finding F15)
   | ["genesis.roundtrip"] =>
     -- identity on the modelled state (Properties/C08), up to the representation of "no tokens": a class
